@@ -102,7 +102,9 @@ func Harness_C14_delta() {
 	K := v.Param("K", 1)
 	_, o, oc := vOwnerState("o", K, nil)
 	sender := vNewState("r", nil)
-	if v.Choose("sender-is-owner", 2) == 1 {
+	// (param "direct": only exchanges with the owner itself - used to bound
+	// the K=2 thorough run, whose relay half did not finish in an hour)
+	if v.Param("direct", 0) == 1 || v.Choose("sender-is-owner", 2) == 1 {
 		sender.nodes["o"] = o
 	} else {
 		vViewOf("rv", sender, o, oc, K)
